@@ -170,7 +170,9 @@ def rule_all_outputs(ctx: Ctx) -> None:
     none_rej = [r for r in rej if any(re.fullmatch(r"\w+ is None|None in [\w.\[\]]+\.axes", c) for c in r["conds"][-1:])]
     whole = [r for r in none_rej if any(norm(i) == "self.outputs" for _t, i in r["iters"])]
     first_only = [r for r in none_rej if any("self.outputs[0]" in norm(i) for _t, i in r["iters"]) or any("self.outputs[0]" in c for c in r["conds"][-1:])]
-    ctx.tri("3-all-outputs", post, (first_only or whole or [{"node": post.node}])[0]["node"], bool(whole), bool(first_only) and not whole or not none_rej,
+    # some other test over every output (e.g. `len(o.indices) != len(o.axes)`) may say the same thing: not judged
+    other_over_outputs = [r for r in rej if r not in none_rej and any(norm(i) == "self.outputs" for _t, i in r["iters"])]
+    ctx.tri("3-all-outputs", post, (first_only or whole or [{"node": post.node}])[0]["node"], bool(whole), (bool(first_only) and not whole) or (not none_rej and not other_over_outputs),
             "':' is rejected in every output", "':' (None axis) is only rejected in the first output" if first_only else "':' (None axis) in an output is not rejected", key="none-in-outputs")
     same = [r for r in rej if any(".indices" in c and ("!=" in c) for c in r["conds"][-1:])]
     loose = [r for r in rej if any(".indices" in c and any(w in c for w in ("set(", "sorted(", "len(", "frozenset(")) for c in r["conds"][-1:])]
